@@ -58,3 +58,14 @@ Proof. vm_compute. reflexivity. Qed.
 Theorem C09_until_zero_runs_to_the_end : forall now rows c idx, run_until now (Some 0%Q) c rows idx = run_until now None c rows idx.
 Proof. exact run_until_zero_is_no_stop. Qed.
 Print Assumptions C09_until_zero_runs_to_the_end.
+
+(* "applied exactly once" needs ONE set of flags per run: two handles sharing the results but not the flags (the caller's sim and the member after an
+   in-place MultiSim.run) finalise twice -- refuted, listed finding multisim-inplace-aliases-finalise-twice; through one handle the second attempt is
+   refused and changes nothing *)
+Theorem C09_aliased_handles_finalise_twice_refuted : forall s, s_ready s = false ->
+  s_scaled (fst (through false sim_finalize (through true sim_finalize (s, s)))) = S (S (s_scaled s)).
+Proof. exact aliased_handles_finalise_twice. Qed.
+Theorem C09_one_handle_finalises_once : forall s, s_ready s = false ->
+  through true sim_finalize (through true sim_finalize (s, s)) = through true sim_finalize (s, s).
+Proof. exact one_handle_finalises_once. Qed.
+Print Assumptions C09_aliased_handles_finalise_twice_refuted. Print Assumptions C09_one_handle_finalises_once.
